@@ -638,6 +638,24 @@ func firstNodePos(st ast.Stmt) token.Pos {
 			return x.Init.Pos()
 		}
 		return x.Cond.Pos()
+	case *ast.SwitchStmt:
+		if x.Init != nil {
+			return x.Init.Pos()
+		}
+		if x.Tag != nil {
+			return x.Tag.Pos()
+		}
+	case *ast.LabeledStmt:
+		return firstNodePos(x.Stmt)
+	case *ast.ForStmt:
+		if x.Init != nil {
+			return x.Init.Pos()
+		}
+		if x.Cond != nil {
+			return x.Cond.Pos()
+		}
+	case *ast.RangeStmt:
+		return x.X.Pos()
 	}
 	return st.Pos()
 }
